@@ -58,7 +58,7 @@ def mech_table(ck):
     for h in HASHLEN:
         T.append(M(f'CKM_{h}_RSA_PKCS', 'rsa-sign', ('sign', 'verify'), size=128, key='rsa'))
         T.append(M(f'CKM_{h}_RSA_PKCS_PSS', 'rsa-pss', ('sign', 'verify'), size=128, rand=True, key='rsa', params='pss:' + h))
-        if h != 'SHA1' or True: T.append(M(f'CKM_DSA_{h}', 'dsa', ('sign', 'verify'), size=2 * len(K.DSA['q']), rand=True, key='dsa'))
+        T.append(M(f'CKM_DSA_{h}', 'dsa', ('sign', 'verify'), size=2 * len(K.DSA['q']), rand=True, key='dsa'))
     T += [M('CKM_RSA_PKCS_PSS', 'rsa-pss', ('sign', 'verify'), multi=False, size=128, fixin=32, rand=True, key='rsa', params='pss:SHA256'),
           M('CKM_ECDSA', 'ecdsa', ('sign', 'verify'), multi=False, size=64, maxin=32, rand=True, key='ec'), M('CKM_EDDSA', 'eddsa', ('sign', 'verify'), multi=False, size=64, key='ed'),
           M('CKM_DSA', 'dsa', ('sign', 'verify'), multi=False, size=2 * len(K.DSA['q']), fixin=20, rand=True, key='dsa')]
@@ -118,7 +118,7 @@ class Worker:
         """-> (mechanism json, tag bytes)"""
         r = s.rnd; ck = s.ck; x = s.x; p = m.params
         if p is None: return x.M(m.name), 0
-        if p == 'iv16': return x.M(m.name, hex=os.urandom(0).hex() + bytes(r.randrange(256) for _ in range(16)).hex()), 0
+        if p == 'iv16': return x.M(m.name, hex=bytes(r.randrange(256) for _ in range(16)).hex()), 0
         if p == 'iv8': return x.M(m.name, hex=bytes(r.randrange(256) for _ in range(8)).hex()), 0
         if p == 'ctr': return x.M(m.name, ctr={'bits': r.choice([128, 64, 32]), 'cb': bytes(r.randrange(256) for _ in range(16)).hex()}), 0
         if p == 'gcm':
@@ -133,7 +133,7 @@ class Worker:
             key = s.keyfor(m, kind)
             if m.key and key is None: return False
             mech, tag = s.build_mech(m); fns = KIND_FNS[kind]
-            kw = dict(s=s.twin, mech=mech);
+            kw = dict(s=s.twin, mech=mech)
             if kind != 'digest': kw['key'] = key
             r = s.x.call(fns[0], **kw)
             if r['rv'] != 0:
@@ -174,7 +174,7 @@ class Worker:
             return Op('find', M('find', 'find', ('find',)), None, None, calls)
         cands = [m for m in s.table if kind in m.ops]
         if not cands: return None
-        m = r.choice(cands); mech, tag = s.build_mech(m); key = s.keyfor(m, kind); fail = r.random() < 0.22
+        m = r.choice(cands); mech, tag = s.build_mech(m); key = s.keyfor(m, kind); fail = r.random() < 0.3
         multi = m.multi and r.random() < 0.65
         # ---- input
         if m.sym:
@@ -192,7 +192,7 @@ class Worker:
                     if m.cls == 'aead' and r.random() < 0.3: ct = ct[:r.randrange(0, max(1, tag))]      # shorter than the tag
                 data = ct
         elif m.cls == 'rsa-enc':
-            n = r.choice([0, 1, 16, m.maxin - 1, m.maxin]);
+            n = r.choice([0, 1, 16, m.maxin - 1, m.maxin])
             if fail and kind == 'encrypt': n = r.choice([m.maxin + 1, 128, 129, 200]) if m.name != 'CKM_RSA_X_509' else r.choice([129, 200])
             data = s.rbytes(n)
             if m.name == 'CKM_RSA_X_509' and n == 128: data = b'\x00' + data[1:]
@@ -240,7 +240,6 @@ class Worker:
         kw = dict(s=sess, mech=op.mech)
         if op.kind != 'digest': kw['key'] = op.key
         return kw
-    def mcls(s, op): return op.m.cls
     def bound(s, op, c):
         if op.m.sym: return c['inlen'] + (op.tin - op.tout) + op.m.block + op.tag
         return op.m.size
@@ -272,7 +271,7 @@ class Worker:
         if r['rv'] != 0: part.observe('twin Init failed (not evaluated)', {'mech': op.m.name, 'rv': r['rvname']}); s.reset_twin(); return
         rvs = []; outs = []
         for c, rvname, out in op.done:
-            kw = dict(c['kw']);
+            kw = dict(c['kw'])
             if c['fn'] in HAS_OUT: kw['buf'] = c['bound'] + 64
             q = s.x.call(c['fn'], s=T, **kw); rvs.append(q['rvname'])
             if q['rv'] == 0 and c['fn'] in HAS_OUT: outs.append(bytes.fromhex(q['out']['data']))
@@ -286,7 +285,7 @@ class Worker:
             s.V(fns[3] or fns[1], icls, 'return-codes-differ-from-twin', f'a {op.kind} operation ({op.m.name}) that was disturbed by size queries / too-small buffers answered {main_rvs}, the undisturbed twin {rvs}', mech=op.m.name, mechanism=op.mech, calls=[(c['fn'], c['kw']) for c, _, _ in op.done])
             s.case(op.kind, op.m.cls, 'twin', 'none'); return
         if main_rvs and main_rvs[-1] == OK and op.kind != 'verify':
-            if not op.m.rand:
+            if not op.m.rand or op.kind == 'decrypt':       # decryption is deterministic also for randomised encryption schemes
                 if main_out != twin_out:
                     s.V(fns[3] or fns[1], icls, 'result-differs-from-twin', f'a disturbed {op.kind} operation ({op.m.name}) produced a different result than its undisturbed twin', mech=op.m.name, mechanism=op.mech, got=main_out.hex(), twin=twin_out.hex(), calls=[(c['fn'], c['kw']) for c, _, _ in op.done])
             else:
